@@ -12,3 +12,8 @@ import SJ.Props.StreamTyped
 #print axioms SJ.Props.TypedFaultEq.c13_typed_fault_io
 #print axioms SJ.Props.C13.c13_into_io_error
 #print axioms SJ.Props.StreamTyped.c13_typed_stream_fault
+#print axioms SJ.Props.C13.c13_write_all_spec
+#print axioms SJ.Props.C13.c13_writer_prefix
+#print axioms SJ.Props.C13.c13_writer_ok_iff
+#print axioms SJ.Props.C13.c13_writer_vec
+#print axioms SJ.Props.C13.c13_writer_budget
